@@ -41,6 +41,12 @@ fn main() {
         eprintln!("usage: harness <stream> --seed N --tier quick|thorough --out DIR");
         std::process::exit(2);
     }
+    if args[1] == "deepchild" {
+        // child of the `resp` stream: parse one very deeply nested document on a small stack; a stack
+        // overflow kills this process only, and the parent reports the case as a crash
+        streams::resp::deep_child(&args[2], args[3].parse().expect("depth"), &args[4]);
+        return;
+    }
     let stream = args[1].clone();
     let mut o = Opts { seed: 1, thorough: false, out: "out".into(), corpus: vec![], only_corpus: false };
     let mut i = 2;
